@@ -3,13 +3,12 @@
 (*                                                                                            *)
 (* The universe U is a sequence of build trees (TermsExt): the same term in the different     *)
 (* heap representations of the implementation (literal | string | partial string | =.. ;      *)
-(* small integer | result of bignum arithmetic | n rdiv 1).  One initial state per left       *)
-(* element i (it prints the element and its denotation); its successors are the pairs (i, j). *)
-(* For every pair TLC                                                                         *)
-(*  - checks the theorems about the oracle (antisymmetry, "=" iff identical denotations,      *)
-(*    transitivity through every third element) under every ranking of the variables,         *)
-(*  - prints the expected order symbol under each of the NP rankings of {X, Y, Z}; the        *)
-(*    binding (props/C13.py, Trace_C13) infers the ranking the implementation uses per query. *)
+(* small integer | result of bignum arithmetic | n rdiv 1).  TLC                              *)
+(*  - checks once (ASSUME OracleIsTotalOrder) that Compare is a total order on the universe   *)
+(*    whose equality is identity of denotations, under every ranking of the variables;        *)
+(*  - prints one vector per row i: the element, its denotation and, for every j, the expected *)
+(*    order symbol of (U[i], U[j]) under each of the NP rankings of {X, Y, Z}; the binding     *)
+(*    (props/C13.py, Trace_C13) infers the ranking the implementation uses in each query.      *)
 EXTENDS StdOrder, Json
 
 CONSTANT Tier   \* "quick" | "thorough"
@@ -44,7 +43,9 @@ AtomsMore  == <<A("."), A("-"), A("u_fffd"), A("u_e9_a"), A("f"), A("{}"), A("aa
 
 CmpsQuick == <<C1("f", a), C1("f", b), C1("g", a), C2("f", a, a), C1("u_e9", a), C1("f", X), C1("f", Y),
                C2("f", X, Y), C2("f", Y, X), C2("-", a, b), C2("g", a, b),
-               C1("f", Str(Ch(<<"a", "b">>))), C1("f", ListOf(<<a, b>>))>>
+               C1("f", Str(Ch(<<"a", "b">>))), C1("f", ListOf(<<a, b>>)),
+               C1("f", Z), C2("f", Y, Z), C2("f", Z, X), C2("f", X, X),
+               C1("g", X), C1("g", Y), C1("g", Z), C2("f", a, X), C2("f", a, Y), C2("f", a, Z)>>
 
 ListsQuick ==
   <<ListOf(<<a>>), Str(Ch(<<"a">>)), ListOf(<<a, b>>), Str(Ch(<<"a", "b">>)),
@@ -52,7 +53,9 @@ ListsQuick ==
     PListOf(<<a, b>>, Y), Cons(a, b), UnivCons(b, a), UnivCons(a, Str(Ch(<<"b">>))),
     ListOf(<<X>>), Str(Ch(<<"a", "b", "c">>)), Str(Ch(<<"a", "b", "d">>)),
     PListOf(<<a, b>>, Str(Ch(<<"c">>))), PStr(Ch(<<"a">>), Str(Ch(<<"b", "c">>))),
-    Str(Ch(<<"u_e9", "a">>)), ListOf(<<A("u_e9"), a>>), ListOf(<<I(1)>>)>>
+    Str(Ch(<<"u_e9", "a">>)), ListOf(<<A("u_e9"), a>>), ListOf(<<I(1)>>),
+    Cons(a, Y), PStr(Ch(<<"a">>), Z), PStr(Ch(<<"a", "b">>), X), ListOf(<<Y>>), ListOf(<<X, Y>>),
+    ListOf(<<Y, X>>), PListOf(<<a, b>>, Z)>>
 
 Q == <<X, Y, Z>> \o FlQuick \o IntsQuick \o RatsQuick \o AtomsQuick \o CmpsQuick \o ListsQuick
 
@@ -71,40 +74,72 @@ T3 == [k \in 1..(Len(Gs) * Len(Gs)) |->
 
 U == IF Tier = "quick" THEN Q ELSE Q2 \o T1 \o T2 \o T3
 N == Len(U)
-DU == [k \in 1..N |-> Den(U[k])]      \* denotations (evaluated once: a constant-level definition)
-D(k) == DU[k]
+(* TLC does not pre-evaluate definitions that (transitively) use the instantiated BigInt module, *)
+(* so the denotations are computed where they are needed and bound by LET (once per row).        *)
+RECURSIVE DenAll(_, _)
+DenAll(u, k) == IF k > Len(u) THEN <<>> ELSE <<Den(u[k])>> \o DenAll(u, k + 1)
+DU == DenAll(U, 1)
 
 (* the rankings of the variables *)
 PermSeq == << <<1, 2, 3>>, <<1, 3, 2>>, <<2, 1, 3>>, <<2, 3, 1>>, <<3, 1, 2>>, <<3, 2, 1>> >>
 NP == Len(PermSeq)
 VR(p) == (X :> PermSeq[p][1]) @@ (Y :> PermSeq[p][2]) @@ (Z :> PermSeq[p][3])
 
-(* third elements for the transitivity theorem: all of U in the quick tier, Q2 in the thorough one *)
-NK == IF Tier = "quick" THEN N ELSE Len(Q2)
+(* ---- theorems about the oracle (ASSUME: evaluated once; a failure is a tool error) ----      *)
+(* Compare consults vr only where BOTH terms have a variable at the same position, so a pair in  *)
+(* which one term is ground has the same result under every ranking: the matrix of ranking 1 is  *)
+(* reused for those pairs.  Force turns a lazily evaluated function into a tuple.                *)
+Force(fn) == fn \o <<>>
+HasVars(du) == Force([x \in 1..Len(du) |-> VarsOf(du[x]) # {}])
+Matrix1(du) == Force([x \in 1..Len(du) |-> Force([y \in 1..Len(du) |-> Compare(du[x], du[y], VR(1))])])
+MatrixP(du, hv, m1, p) ==
+  IF p = 1 THEN m1
+  ELSE Force([x \in 1..Len(du) |-> Force([y \in 1..Len(du) |->
+               IF hv[x] /\ hv[y] THEN Compare(du[x], du[y], VR(p)) ELSE m1[x][y]])])
+(* rank[x] = number of elements strictly below du[x].  If the matrix entry (x, y) is the sign of *)
+(* rank[x] - rank[y] for ALL pairs, and equal ranks mean identical denotations, then Compare is  *)
+(* antisymmetric, transitive and total on the universe and "=" holds iff the terms are           *)
+(* identical (StdOrder!AntiSymAt, EqIsIdentAt, TransAt for all triples).                         *)
+TotalOrderMatrix(du, mx) ==
+  LET n == Len(du)
+      rank == Force([x \in 1..n |-> Cardinality({y \in 1..n : mx[x][y] > 0})])
+  IN \A x, y \in 1..n :
+       /\ mx[x][y] = Sgn(rank[x] - rank[y])
+       /\ (rank[x] = rank[y]) <=> (du[x] = du[y])
+ASSUME OracleIsTotalOrder ==
+  LET du == DU
+      hv == HasVars(du)
+      m1 == Matrix1(du)
+  IN \A p \in 1..NP : TotalOrderMatrix(du, MatrixP(du, hv, m1, p))
+(* the operator table is what it says *)
+ASSUME \A o \in {"<", "=", ">"} : Holds("==", o) = ~Holds("\\==", o) /\ Holds("@<", o) = ~Holds("@>=", o)
+                                 /\ Holds("@>", o) = ~Holds("@=<", o)
 
-VARIABLES phase, i, j
-vars == <<phase, i, j>>
+(* ---- generation: one state per row i; rows are spread over G group states so that TLC's      *)
+(* workers evaluate them in parallel ---- *)
+G == 16
+VARIABLES phase, g, i
+vars == <<phase, g, i>>
 
-Init == phase = "pick" /\ i \in 1..N /\ j = 0
-Next == phase = "pick" /\ phase' = "case" /\ i' = i /\ j' \in 1..N
+Init == phase = "group" /\ g \in 0..(G - 1) /\ i = 0
+Next == phase = "group" /\ phase' = "row" /\ g' = g /\ i' \in {r \in 1..N : r % G = g}
 
-Theorems ==
-  phase = "case" =>
-    \A p \in 1..NP :
-      /\ AntiSymAt(D(i), D(j), VR(p))
-      /\ EqIsIdentAt(D(i), D(j), VR(p))
-      /\ \A k \in 1..NK : TransAt(D(i), D(j), D(k), VR(p))
-
-AllNames == UNION {NamesOf(D(k)) : k \in 1..N}
+AllNames(du) == UNION {NamesOf(du[k]) : k \in 1..Len(du)}
 
 Emit ==
-  /\ phase = "pick" =>
-       /\ PrintT(ToJson([k |-> "u", i |-> i, b |-> U[i], tm |-> D(i)]))
-       /\ i = 1 => PrintT(ToJson([k |-> "tab", names |-> NameTable(AllNames), n |-> N,
-                                  preds |-> [q \in 1..Len(CmpPreds) |->
-                                               [p |-> CmpPreds[q], lt |-> Holds(CmpPreds[q], "<"),
-                                                eq |-> Holds(CmpPreds[q], "="), gt |-> Holds(CmpPreds[q], ">")]]]))
-  /\ phase = "case" =>
-       PrintT(ToJson([k |-> "p", i |-> i, j |-> j,
-                      os |-> [p \in 1..NP |-> Sym(Compare(D(i), D(j), VR(p)))]]))
+  /\ (phase = "group" /\ g = 0) =>
+       LET du == DU IN
+       PrintT(ToJson([k |-> "tab", names |-> NameTable(AllNames(du)), n |-> N,
+                      preds |-> [q \in 1..Len(CmpPreds) |->
+                                   [p |-> CmpPreds[q], lt |-> Holds(CmpPreds[q], "<"),
+                                    eq |-> Holds(CmpPreds[q], "="), gt |-> Holds(CmpPreds[q], ">")]]]))
+  /\ phase = "row" =>
+       LET du == DU
+           c1 == Force([j \in 1..N |-> Compare(du[i], du[j], VR(1))])
+           vi == VarsOf(du[i]) # {}
+       IN PrintT(ToJson([k |-> "row", i |-> i, b |-> U[i], tm |-> du[i],
+                         os |-> [j \in 1..N |->
+                                   IF vi /\ VarsOf(du[j]) # {}
+                                   THEN [p \in 1..NP |-> Sym(Compare(du[i], du[j], VR(p)))]
+                                   ELSE [p \in 1..NP |-> Sym(c1[j])]]]))
 =============================================================================
